@@ -55,3 +55,33 @@ func AttemptsAfter(evs []HookEvent, marker string) (found bool, labels []string)
 	}
 	return true, labels
 }
+
+// StartedAfter returns the labels that must have been started after the first event named
+// marker: more commands of the label left a start line than were attempted before the marker.
+// (cmd.attempt is logged for every shell command of a target, output checks included, and an
+// attempt made before the marker may legitimately still start, so this is the sound direction.)
+func StartedAfter(evs []HookEvent, marker string, started map[string]int) (found bool, labels []string) {
+	var mseq int64 = -1
+	pid := 0
+	for _, e := range evs {
+		if e.Name == marker {
+			mseq, pid, found = e.Seq, e.Pid, true
+			break
+		}
+	}
+	if !found {
+		return false, nil
+	}
+	before := map[string]int{}
+	for _, e := range evs {
+		if e.Pid == pid && e.Name == "cmd.attempt" && e.Seq < mseq && len(e.KV) > 0 {
+			before[e.KV[0]]++
+		}
+	}
+	for l, n := range started {
+		if n > before[l] {
+			labels = append(labels, l)
+		}
+	}
+	return true, labels
+}
